@@ -266,7 +266,8 @@ def _who(frame):
         return "dur", loc["node"]
     if name == "_truncated_exponential_":
         b = frame.f_back
-        return "trunc", (b.f_locals["node"], b.f_locals["v"], loc["T"])
+        # the recipient is attributed afterwards from the logged random.sample outcome (order of the draws)
+        return "trunc", (b.f_locals.get("node"), b.f_locals.get("v"), loc["T"])
     raise HarnessError("expovariate called from unexpected place %s" % name)
 
 
@@ -325,7 +326,31 @@ def run_fast_sir(spec, props=("C01",)):
             continue
         delay = {}; duration = {}
         bad = False
-        draws = [x for x in r.log if x[0] == "draw"]
+        # unweighted fast path: the k-th truncated draw after a random.sample belongs to the k-th sampled recipient;
+        # every recipient must get its own draw
+        draws = []
+        pending = None      # [node, recipients list, next index]
+        cur_node = None
+        for x in r.log:
+            if x[0] == "draw" and x[1] == "dur":
+                if pending is not None and pending[2] != len(pending[1]):
+                    A.add(V("C01", fn, cls, "truncated_draw", "node %r infects %r but only %d truncated delays were drawn" % (pending[0], pending[1], pending[2]), pre)); bad_proto = True
+                pending = None
+                cur_node = x[2]
+                draws.append(x[:6])
+            elif x[0] == "sample":
+                pending = [cur_node, list(x[2]), 0]
+            elif x[0] == "draw" and x[1] == "trunc":
+                if pending is None or pending[2] >= len(pending[1]):
+                    A.add(V("C01", fn, cls, "truncated_draw", "a truncated delay was drawn that belongs to no sampled recipient (node %r)" % (cur_node,), pre))
+                    draws.append(x[:6])
+                else:
+                    v_ = pending[1][pending[2]]; pending[2] += 1
+                    draws.append((x[0], x[1], (pending[0], v_), x[3], x[4], x[5]))
+            elif x[0] == "draw":
+                draws.append(x[:6])
+        if pending is not None and pending[2] != len(pending[1]):
+            A.add(V("C01", fn, cls, "truncated_draw", "node %r infects %r but only %d truncated delays were drawn" % (pending[0], pending[1], pending[2]), pre))
         binoms = [x for x in r.log if x[0] == "binomial"]
         for (_, kind, who, rate, val, T) in draws:
             if kind == "dur":
@@ -425,7 +450,8 @@ def run_fast_sir(spec, props=("C01",)):
                 for s, m in mon.c10(out, list(r2.out), G, tmin, ["S", "I", "R"], {("S", "I"), ("I", "R")}):
                     A.add(V("C10", fn, cls, s, m, pre))
     # fast path: joint law of the recipient set given the duration ---------------------------
-    if fastpath and "C01" in props:
+    if fastpath and "C01" in props and not any("truncated_draw" in v["key"] or "binomial_protocol" in v["key"] for v in A.viol):
+        # (with a broken draw protocol the trace no longer has the shape the law check parses)
         _check_recipient_law(A, runs, fn, cls, G, tau, nodes)
     if runs:
         r = runs[len(runs) // 2]
